@@ -175,9 +175,9 @@ def m_cmp(c, binp, tier):
 
 
 def m_meta(c, binp, tier):
-    runs = [("meta-AB2", {"MaxSteps": 2, "SeedSet": "AB"})]
+    runs = [("meta-AB2", {"MaxSteps": 2, "SeedSet": "AB"}), ("meta-D2", {"MaxSteps": 2, "SeedSet": "D"})]
     if tier == "thorough":
-        runs += [("meta-AB3", {"MaxSteps": 3, "SeedSet": "AB"}), ("meta-C2", {"MaxSteps": 2, "SeedSet": "C"})]
+        runs += [("meta-AB3", {"MaxSteps": 3, "SeedSet": "AB"}), ("meta-C2", {"MaxSteps": 2, "SeedSet": "C"}), ("meta-D3", {"MaxSteps": 3, "SeedSet": "D"})]
     for name, consts in runs:
         c.add_model(run_model("%s-%s" % (c.prop, name), "MC_Meta", consts, ["SplitAgrees"], properties=["ParseInvariant"],
                               binp=binp, workers=10, expect_cases="transitions"))
